@@ -295,6 +295,7 @@ Definition Pre (s : store) : Prop := LW s /\ HR s /\ SD s.
 Record Step (s : store) : Prop := mkStep {
   st_len : len s = len s0;
   st_clen : length (constrs s) = length (constrs s0);
+  st_cslen : length (csets s) = length (csets s0);
   st_cell : forall w, crel (cell_of s0 w) (cell_of s w);
   st_cso : forall j, j <> i -> cset_of s j = cset_of s0 j;
   st_csi : exists P, cset_of s i = filter P (cset_of s0 i);
@@ -489,6 +490,7 @@ Proof.
   - constructor.
     + unfold s'. cbn. rewrite upd_length. apply S.
     + exact (st_clen s S).
+    + exact (st_cslen s S).
     + intros v. eapply crel_trans; [apply (st_cell s S)|apply C].
     + exact (st_cso s S).
     + exact (st_csi s S).
@@ -614,6 +616,7 @@ Proof.
   - constructor.
     + exact (st_len s S).
     + unfold s'. cbn. rewrite upd_length. apply S.
+    + exact (st_cslen s S).
     + exact (st_cell s S).
     + exact (st_cso s S).
     + exact (st_csi s S).
@@ -681,6 +684,7 @@ Proof.
   - constructor.
     + exact (st_len s S).
     + unfold s', markd. cbn. rewrite upd_length. apply S.
+    + exact (st_cslen s S).
     + exact (st_cell s S).
     + exact (st_cso s S).
     + exact (st_csi s S).
@@ -733,14 +737,15 @@ Lemma cset_pres s s' P : Step s -> Pre s -> sameVC s s' ->
   (forall j, j <> i -> cset_of s' j = cset_of s j) ->
   cset_of s' i = filter P (cset_of s i) ->
   (forall c, In c (cset_of s i) -> P c = false -> k_done (constr_of s c) = true) ->
-  inv s' -> Step s' /\ Pre s'.
+  inv s' -> length (csets s') = length (csets s) -> Step s' /\ Pre s'.
 Proof.
-  intros S (L & Hr & Sd) (Ev & Ek) Co Ci Hd I'.
+  intros S (L & Hr & Sd) (Ev & Ek) Co Ci Hd I' Ecl.
   assert (Ec : forall c, constr_of s' c = constr_of s c) by (intros c; apply constr_of_same; exact Ek).
   split; [|split; [|split]].
   - constructor.
     + rewrite Ev. apply S.
     + rewrite Ek. apply S.
+    + rewrite Ecl. apply S.
     + intros w. rewrite (cell_of_vars s' s w Ev). apply S.
     + intros j Nj. rewrite (Co j Nj). apply (st_cso s S j Nj).
     + destruct (st_csi s S) as (P1 & E1). exists (fun x => P1 x && P x). rewrite Ci, E1. apply filter_filter2.
@@ -838,10 +843,9 @@ Qed.
 (* ================================================================== *)
 Section D.
 Variable t : store.
-Hypothesis FS : Step t.
-Hypothesis FP : Pre t.
-Hypothesis FT : T2 s0 t.
-Hypothesis FL' : Stl t.
+Definition FinT : Prop := Step t /\ Pre t /\ T2 s0 t /\ Stl t.
+(* t is the end of a run whenever some state of the round dominates it *)
+Hypothesis FH : forall s, Step s -> Dom s t -> FinT.
 
 Definition G (s s' : store) : Prop := Step s' /\ Pre s' /\ T2 s s'.
 Definition efuel (P : Prop) (e : err) : Prop := e = EFuel \/ ~ P.
@@ -988,7 +992,7 @@ Proof.
     + apply (Nt Ut u); rewrite Et; assumption.
     + destruct Dd as [(_ & Uu)|(a' & Et & _)]; [|unfold unb in Ut; rewrite Et in Ut; discriminate].
       destruct (Uu u Hu) as (u' & Hu' & Le').
-      destruct FP as (Lt' & _). destruct (lw_bok t Lt' w) as (_ & _ & B3).
+      destruct (FH s S D) as (_ & (Lt' & _) & _). destruct (lw_bok t Lt' w) as (_ & _ & B3).
       assert (u' = u).
       { apply (Lub.ole_antisym H W); [exact Le'|]. apply B3; [rewrite Lt; exact Hl|exact Hu']. }
       subst u'. apply (Nt Ut u); [rewrite Lt; exact Hl|exact Hu'].
@@ -997,7 +1001,7 @@ Proof.
     + apply (Nt Ut u); rewrite Et; assumption.
     + destruct Dd as [(_ & Uu)|(a' & Et & _)]; [|unfold unb in Ut; rewrite Et in Ut; discriminate].
       destruct (Uu u Hu) as (u' & Hu' & Le').
-      destruct FP as (Lt' & _). destruct (lw_bok t Lt' w) as (_ & _ & B3).
+      destruct (FH s S D) as (_ & (Lt' & _) & _). destruct (lw_bok t Lt' w) as (_ & _ & B3).
       assert (u' = u).
       { apply (Lub.ole_antisym H W); [exact Le'|]. apply B3; [rewrite Lt; exact Hl|exact Hu']. }
       subst u'. apply (Nt Ut u); [rewrite Lt; exact Hl|exact Hu'].
@@ -1309,27 +1313,27 @@ Qed.
 Lemma mins_of_single m : mins_of [m] = [m].
 Proof. reflexivity. Qed.
 
-Lemma t_in c : In c (cset_of s0 i) -> k_done (constr_of t c) = false -> In c (cset_of t i).
+Lemma t_in c : FinT -> In c (cset_of s0 i) -> k_done (constr_of t c) = false -> In c (cset_of t i).
 Proof.
-  intros Hc D. destruct (in_dec Nat.eq_dec c (cset_of t i)) as [X|X]; [exact X|].
+  intros (FS & FP & FT & FL') Hc D. destruct (in_dec Nat.eq_dec c (cset_of t i)) as [X|X]; [exact X|].
   rewrite (st_rm t FS c Hc X) in D. discriminate.
 Qed.
 
-Lemma t_sub_ok c : In c (cset_of s0 i) -> k_elim (constr_of s0 c) = false ->
+Lemma t_sub_ok c : FinT -> In c (cset_of s0 i) -> k_elim (constr_of s0 c) = false ->
   vd t (constr_of t c) = PKeep \/ vd t (constr_of t c) = PDone.
 Proof.
-  intros Hc E. pose proof (kind_sub t c FS E) as Ek. destruct FP as (_ & _ & Sd).
+  intros F Hc E. pose proof F as (FS & FP & FT & FL'). pose proof (kind_sub t c FS E) as Ek. destruct FP as (_ & _ & Sd).
   destruct (k_done (constr_of t c)) eqn:D; [right; apply Sd; auto|left].
-  pose proof (FL' c (t_in c Hc D)) as St. unfold settled in St. rewrite Ek in St. apply St.
+  pose proof (FL' c (t_in c F Hc D)) as St. unfold settled in St. rewrite Ek in St. apply St.
 Qed.
 
-Lemma t_alts c l0 : In c (cset_of s0 i) -> k_elim (constr_of s0 c) = true ->
+Lemma t_alts c l0 : FinT -> In c (cset_of s0 i) -> k_elim (constr_of s0 c) = true ->
   k_done (constr_of s0 c) = false -> k_alts (constr_of s0 c) = obs l0 ->
   exists lt, k_alts (constr_of t c) = obs lt /\ lt <> [] /\ NoDup lt /\
     (forall m, In m lt -> In m (mins_of l0) /\ kp H t (rho c) m = true) /\
     (forall m, lt = [m] -> dcl t (rho c) m).
 Proof.
-  intros Hc E D Ea. pose proof FP as (Lt & _).
+  intros F Hc E D Ea. pose proof F as (FS & FP & FT & FL'). pose proof FP as (Lt & _).
   pose proof (in_range0 t c FS Hc) as Lc. pose proof (kind_elim t c FS Hc E) as Ek.
   pose proof (lw_kw t Lt c Lc) as Sh. unfold shape in Sh. rewrite Ek in Sh. destruct Sh as (lt & Gl & El).
   destruct (elm_form t c l0 lt FS Hc E D Ea El) as (_ & Pit & (P & EP) & _).
@@ -1342,7 +1346,7 @@ Proof.
       rewrite mins_of_single in EP. assert (X : In m [m]) by (left; reflexivity). rewrite EP in X.
       apply filter_In in X. apply X.
     + intros m' [= <-]. exact Dc.
-  - pose proof (FL' c (t_in c Hc Dt)) as St. unfold settled in St. rewrite Ek in St.
+  - pose proof (FL' c (t_in c F Hc Dt)) as St. unfold settled in St. rewrite Ek in St.
     destruct St as (_ & En & l & El' & An & Le & Kp). rewrite El in El'. apply obs_inj in El'. subst l.
     split; [intros ->; cbn in Le; lia|split; [apply (anti_NoDup H); exact An|split]].
     + intros m Hm. split.
@@ -1352,14 +1356,14 @@ Proof.
 Qed.
 
 (* every alternative t still has survives the filter in a state that dominates t *)
-Lemma lt_in s c l0 ls lt r0 m : Step s -> Pre s -> Dom s t -> In c (cset_of s0 i) ->
+Lemma lt_in s c l0 ls lt r0 m : FinT -> Step s -> Pre s -> Dom s t -> In c (cset_of s0 i) ->
   k_elim (constr_of s0 c) = true -> k_done (constr_of s0 c) = false -> k_alts (constr_of s0 c) = obs l0 ->
   k_alts (constr_of s c) = obs ls -> follow s r0 = follow s (rho c) ->
   k_alts (constr_of t c) = obs lt -> In m lt ->
   (forall m, In m lt -> In m (mins_of l0) /\ kp H t (rho c) m = true) ->
   In m (filter (kp H s r0) (mins_of ls)).
 Proof.
-  intros S (L & _) Dm Hc E D Ea Es Er Et Hm Ht. destruct (Ht m Hm) as (Hm0 & Kt). pose proof FP as (Lt & _).
+  intros (FS & FP & FT & FL') S (L & _) Dm Hc E D Ea Es Er Et Hm Ht. destruct (Ht m Hm) as (Hm0 & Kt). pose proof FP as (Lt & _).
   assert (Ks : kp H s (rho c) m = true).
   { apply (kp_mono s t (rho c) m (lw_inv s L) (lw_inv t Lt) (lw_bok s L) (lw_bok t Lt) (gd_of_mins c l0 m Hc E Ea Hm0) Dm Kt). }
   destruct (elm_form s c l0 ls S Hc E D Ea Es) as (_ & Pis & _ & _).
@@ -1419,18 +1423,18 @@ Lemma ful_sub f c s : Step s -> Pre s -> In c (cset_of s0 i) -> k_elim (constr_o
                   (Quiet c b s s' \/ Stl s') /\ (Dom s t -> Dom s' t))
      (efuel (Dom s t)).
 Proof.
-  intros S P Hc E0. pose proof P as (L & Hr & Sd). pose proof FP as (Lt & _).
+  intros S P Hc E0. pose proof P as (L & Hr & Sd).
   pose proof (in_range0 s c S Hc) as Lc. pose proof (kind_sub s c S E0) as Ek.
   pose proof (lw_kw s L c Lc) as Sh. pose proof (shape_pureK H _ Ek Sh) as Pk.
   unfold shape in Sh. rewrite Ek in Sh. destruct Sh as (a & Ea & Ba).
   eapply wp_eq; [apply (fulfill_pure H f c s Pk)|].
   destruct (pfc_fuel H f s (constr_of s c) a Ea Ba) as [X|X]; rewrite X; [left; reflexivity|].
   destruct (vd s (constr_of s c)) as [e| |] eqn:V.
-  - right. intros Dm.
+  - right. intros Dm. pose proof (FH s S Dm) as F. pose proof F as (FS & (Lt & _) & _).
     destruct (vd_err_mono s t _ a e (lw_inv s L) (lw_inv t Lt) (lw_bok s L) (lw_bok t Lt) Dm Ea Ba V) as (e' & X').
     destruct (sub_rec s c S E0) as (R1 & R2 & R3). destruct (sub_rec t c FS E0) as (T1 & T2' & T3).
     rewrite (pfc_vars H 4 t t (constr_of s c) (constr_of t c)) in X' by congruence.
-    destruct (t_sub_ok c Hc E0) as [Y|Y]; congruence.
+    destruct (t_sub_ok c F Hc E0) as [Y|Y]; congruence.
   - destruct (sub_mark_pres s c S P Hc E0 V) as (S' & P').
     assert (Csame : forall c', c' <> c -> constr_of (markd c s) c' = constr_of s c').
     { intros c' N. destruct (constr_of_markd c s c') as [Y|(Y & _)]; [exact Y|contradiction]. }
@@ -1463,9 +1467,6 @@ Proof.
   rewrite (st_don s S c E D0) in D. congruence.
 Qed.
 
-Lemma classic_stl s c : stlE s c \/ ~ stlE s c.
-Proof. Admitted.
-
 Lemma ful_elim f c s : (forall g, g <= f -> SP_below g) ->
   Step s -> Pre s -> In c (cset_of s0 i) -> k_elim (constr_of s0 c) = true ->
   wp (fulfill H (S f) c) s
@@ -1473,7 +1474,7 @@ Lemma ful_elim f c s : (forall g, g <= f -> SP_below g) ->
                   (Quiet c b s s' \/ Stl s') /\ (Dom s t -> Dom s' t))
      (efuel (Dom s t)).
 Proof.
-  intros BL Ss P Hc E0. pose proof P as (L & Hr & Sd). pose proof FP as (Lt & _).
+  intros BL Ss P Hc E0. pose proof P as (L & Hr & Sd).
   pose proof (in_range0 s c Ss Hc) as Lc. pose proof (kind_elim s c Ss Hc E0) as Ek.
   rewrite FL.fulfill_S'. apply wp_gets. rewrite Ek.
   destruct (k_done (constr_of s c)) eqn:Ed.
@@ -1520,9 +1521,12 @@ Proof.
   assert (C2 : constr_of s2 c = mkConstr true r0 (obs l2) (k_strict k) false)
     by (unfold s2; apply constr_of_set_constr_same; exact Lc).
   (* what t knows *)
-  destruct (t_alts c l0 Hc E0 D0 Ea0) as (lt & Elt & Nlt & NDlt & Hlt & Hsing).
-  assert (LT : Dom s t -> forall m, In m lt -> In m l2).
-  { intros Dm m Hm. rewrite El2. apply (lt_in s c l0 ls lt r0 m Ss P Dm Hc E0 D0 Ea0 Es Er0 Elt Hm Hlt). }
+  assert (TA : Dom s t -> exists lt, lt <> [] /\ NoDup lt /\ (forall m, In m lt -> In m l2) /\
+                                    (forall m, lt = [m] -> dcl t (rho c) m)).
+  { intros Dm. pose proof (FH s Ss Dm) as F.
+    destruct (t_alts c l0 F Hc E0 D0 Ea0) as (lt & Elt & Nlt & NDlt & Hlt & Hsing).
+    exists lt. split; [exact Nlt|split; [exact NDlt|split; [|exact Hsing]]].
+    intros m Hm. rewrite El2. apply (lt_in s c l0 ls lt r0 m F Ss P Dm Hc E0 D0 Ea0 Es Er0 Elt Hm Hlt). }
   assert (HQ : forall m, In m L1 -> kp H s r0 m = false -> kp H s (k_ref k) m = false).
   { intros m _ X. rewrite <- X. apply kp_follow. symmetry. exact Fr0. }
   assert (K2 : forall m, In m l2 -> kp H s r0 m = true).
@@ -1535,8 +1539,8 @@ Proof.
   clearbody l2.
   destruct l2 as [|m1 [|m2 rest]]; cbn [FL.obs map].
   - (* no alternative left *)
-    apply wp_fail. right. intros Dm. destruct lt as [|m lt']; [contradiction|].
-    apply (LT Dm m). left. reflexivity.
+    apply wp_fail. right. intros Dm. destruct (TA Dm) as (lt & Nlt & _ & LT & _).
+    destruct lt as [|m lt']; [contradiction|]. apply (LT m). left. reflexivity.
   - (* one alternative left: the constraint is fulfilled, unify (ref, alt) *)
     unfold upd_constr at 1. apply wp_modify. rewrite C2. cbn [k_ref k_alts k_strict].
     assert (Es3 : set_constr s2 c (mkConstr true r0 (obs [m1]) (k_strict k) true) =
@@ -1551,8 +1555,8 @@ Proof.
     destruct (elim_upd_pres s c l0 ls (kp H s r0) true Ss P Hc E0 D0 Ea0 Ed Es HQ ltac:(discriminate)) as (S3 & P3).
     fold k r0 L1 in S3, P3. rewrite <- El2 in S3, P3. change (obs [m1]) with [ob m1] in S3, P3. fold k3 s3 in S3, P3.
     assert (C3 : constr_of s3 c = k3) by (unfold s3; apply constr_of_set_constr_same; exact Lc).
-    assert (LTm : Dom s t -> lt = [m1]).
-    { intros Dm. pose proof (LT Dm) as X. clear - X Nlt NDlt.
+    assert (Dsing : Dom s t -> dcl t (rho c) m1).
+    { intros Dm. destruct (TA Dm) as (lt & Nlt & NDlt & X & Hsing). apply Hsing. clear - X Nlt NDlt.
       destruct lt as [|a [|b r]]; [contradiction| |].
       - destruct (X a (or_introl eq_refl)) as [->|[]]. reflexivity.
       - exfalso. destruct (X a (or_introl eq_refl)) as [<-|[]]. destruct (X b (or_intror (or_introl eq_refl))) as [<-|[]].
@@ -1583,10 +1587,10 @@ Proof.
       * eapply wp_eq; [exact Eu|].
         eapply wp_conseq; [apply (BL f' ltac:(lia) w m1 s3 S3 P3 (act_same s s3 w eq_refl A) Gm1 Kc)|auto|].
         intros e [->|Ne]; [left; reflexivity|right]. intros Dm. apply Ne. split; [exact Dm|].
-        pose proof (Hsing m1 (LTm Dm)) as X. rewrite Rw in X. exact X.
+        pose proof (Dsing Dm) as X. rewrite Rw in X. exact X.
       * intros _ s4 (G34 & Dv & Q & Dm). apply wp_gets. apply wp_ret.
         apply Post; auto. { rewrite Rw. exact Dv. }
-        intros D. apply Dm; [exact D|]. pose proof (Hsing m1 (LTm D)) as X. rewrite Rw in X. exact X.
+        intros D. apply Dm; [exact D|]. pose proof (Dsing D) as X. rewrite Rw in X. exact X.
     + (* the reference is resolved: nothing to do *)
       assert (Ko : kpo H o m1 = true).
       { rewrite <- (K2 m1 (or_introl eq_refl)). unfold kp. rewrite Fr0. reflexivity. }
@@ -1598,7 +1602,12 @@ Proof.
       * auto.
   - (* several alternatives left *)
     apply wp_gets. rewrite C2. cbn [k_done]. apply wp_ret.
-    destruct (classic_stl s c) as [St|NS].
+    assert (Dj : stlE s c \/ (forall w, follow s (k_ref k) = V w -> act s w)).
+    { destruct r0 as [w|o xs] eqn:Er.
+      - destruct (Hr c w Hci Ek Ed Er) as [A|St]; [right|left; exact St].
+        intros w' Ew. unfold r0 in Er. rewrite Er in Ew. injection Ew as <-. exact A.
+      - right. intros w Ew. unfold r0 in Er. rewrite Er in Ew. discriminate. }
+    destruct Dj as [St|HA].
     + destruct (Stl2 St) as (X & Y).
       assert (E2 : s2 = s).
       { unfold s2. rewrite X, Y, <- Es. rewrite <- (set_constr_same s c Lc) at 2. fold k. f_equal.
@@ -1606,9 +1615,7 @@ Proof.
       rewrite E2. split; [split; [exact Ss|split; [exact P|apply T2_refl]]|split; [discriminate|split; [|auto]]].
       left. split; [intros w; apply ceqw_refl|split; [reflexivity|split; [reflexivity|split; [reflexivity|]]]].
       intros _ _. unfold settled. fold k. rewrite Ek. exact St.
-    + assert (HA : forall w, follow s (k_ref k) = V w -> act s w).
-      { intros w Ew. destruct (Hr c w Hci Ek Ed Ew) as [A|St]; [exact A|contradiction]. }
-      destruct (elim_upd_pres s c l0 ls (kp H s r0) false Ss P Hc E0 D0 Ea0 Ed Es HQ (fun _ => HA)) as (S2 & P2).
+    + destruct (elim_upd_pres s c l0 ls (kp H s r0) false Ss P Hc E0 D0 Ea0 Ed Es HQ (fun _ => HA)) as (S2 & P2).
       fold k r0 L1 in S2, P2. rewrite <- El2 in S2, P2. fold s2 in S2, P2.
       assert (Csame : forall c', c' <> c -> constr_of s2 c' = constr_of s c').
       { intros c' N. unfold s2. destruct (constr_of_set_constr s c (mkConstr true r0 (obs (m1 :: m2 :: rest)) (k_strict k) false) c') as [(_ & X & _)|X]; [contradiction|exact X]. }
@@ -1622,6 +1629,149 @@ Proof.
         exists (m1 :: m2 :: rest). split; [reflexivity|split; [|split; [cbn; lia|]]].
         -- rewrite El2. apply anti_filter. apply (mins_of_PI H ls Pis).
         -- intros m Hm. rewrite (kp_vars s2 s _ m eq_refl). apply K2. exact Hm.
+Qed.
+
+
+(* ---- a re-check round ---- *)
+Lemma follow_ceqw s s' r : (forall w, ceqw (cell_of s w) (cell_of s' w)) -> len s' = len s ->
+  follow s' r = follow s r.
+Proof.
+  intros C El. unfold follow. rewrite El. apply follow_f_bound_eq. intros v. apply (C v).
+Qed.
+
+Lemma kp_ceqw s s' r m : (forall w, ceqw (cell_of s w) (cell_of s' w)) -> len s' = len s ->
+  kp H s' r m = kp H s r m.
+Proof.
+  intros C El. unfold kp. rewrite (follow_ceqw s s' r C El).
+  destruct (follow s r) as [w|o xs]; [|reflexivity]. destruct (C w) as (_ & L & U & _). apply kpc_ext; assumption.
+Qed.
+
+Lemma vd_ceqw s s' k a : inv s -> inv s' -> (forall w, ceqw (cell_of s w) (cell_of s' w)) -> len s' = len s ->
+  k_alts k = [O a []] -> basic H a = true -> vd s' k = vd s k.
+Proof.
+  intros I I' C El Ea Ba. pose proof (follow_ceqw s s' (k_ref k) C El) as Ef.
+  destruct (follow s (k_ref k)) as [w|o xs] eqn:E.
+  - pose proof (pfc_var H W 0 s k w a (@inv_chain true s I) E Ea Ba) as X.
+    pose proof (pfc_var H W 0 s' k w a (@inv_chain true s' I') Ef Ea Ba) as X'.
+    change (4 + 0) with 4 in X, X'. rewrite X, X'. unfold vdv.
+    destruct (C w) as (_ & L & U & _). rewrite (kpc_ext H _ _ a L U). reflexivity.
+  - symmetry. apply (pfc_res H 4 s s' k o xs a E Ef Ea Ba).
+Qed.
+
+Lemma settled_quiet c b s s' c' : LW s -> LW s' -> Quiet c b s s' -> c' <> c -> c' < length (constrs s) ->
+  settled s c' -> settled s' c'.
+Proof.
+  intros L L' (Qc & Qk & _ & Ql & _) N Lc. unfold settled, stlE, stlS. rewrite (Qk c' N).
+  pose proof (lw_kw s L c' Lc) as Sh. unfold shape in Sh.
+  destruct (k_elim (constr_of s c')).
+  - intros (Dn & En & l & Ea & An & Le & Kp). split; [exact Dn|split; [rewrite (follow_ceqw s s' _ Qc Ql); exact En|]].
+    exists l. repeat split; auto. intros m Hm. rewrite (kp_ceqw s s' _ m Qc Ql). auto.
+  - destruct Sh as (a & Ea & Ba). intros (Dn & V). split; [exact Dn|].
+    rewrite (vd_ceqw s s' _ a (lw_inv s L) (lw_inv s' L') Qc Ql Ea Ba). exact V.
+Qed.
+
+Definition PS (s : store) (l : list nat) : Prop :=
+  forall c, In c (cset_of s i) -> In c l \/ settled s c.
+
+Lemma loop_spec f v : SP_ful f -> forall l s, Step s -> Pre s -> c_cs (cell_of s v) = i ->
+  (forall c, In c l -> In c (cset_of s0 i)) -> PS s l ->
+  wp (loop H f v l) s (fun _ s' => G s s' /\ Stl s' /\ (Dom s t -> Dom s' t)) (efuel (Dom s t)).
+Proof.
+  intros FF. induction l as [|c l IH]; intros s Ss P Ci Hl Ps; unfold loop; cbn [forM].
+  - apply wp_ret. split; [split; [exact Ss|split; [exact P|apply T2_refl]]|split; [|auto]].
+    intros c Hc. destruct (Ps c Hc) as [[]|X]; exact X.
+  - fold (loop H f v l).
+    apply wp_bind with (Q1 := fun _ s2 => G s s2 /\ c_cs (cell_of s2 v) = i /\ PS s2 l /\ (Dom s t -> Dom s2 t)).
+    + unfold body. eapply wp_bind; [apply (FF c s Ss P); apply Hl; left; reflexivity|].
+      cbv beta. intros b s1 ((S1 & P1 & T1) & Db & Q & Dm).
+      assert (Ci1 : c_cs (cell_of s1 v) = i) by (rewrite (crel_cs _ _ (t2_cell _ _ T1 v)); exact Ci).
+      assert (Lr : forall c', In c' (cset_of s i) -> c' < length (constrs s)) by (intros c'; apply (in_range s c'); apply P).
+      assert (Ps1 : forall c', In c' (cset_of s1 i) -> c' <> c -> In c' l \/ settled s1 c').
+      { intros c' Hc' N. destruct Q as [Qq|St]; [|right; apply St; exact Hc'].
+        pose proof Qq as (_ & _ & Qs & _). unfold cset_of in Hc'. rewrite Qs in Hc'. fold (cset_of s i) in Hc'.
+        destruct (Ps c' Hc') as [[X|X]|X]; [congruence|left; exact X|right].
+        apply (settled_quiet c b s s1 c' (proj1 P) (proj1 P1) Qq N (Lr c' Hc') X). }
+      destruct b.
+      * apply wp_modify_end. rewrite Ci1.
+        set (s2 := set_cset s1 i (remove_nat c (cset_of s1 i))).
+        assert (Ei : cset_of s2 i = remove_nat c (cset_of s1 i)).
+        { unfold s2. destruct (cset_of_set_cset s1 i (remove_nat c (cset_of s1 i)) i) as [(X & _)|X]; [exact X|].
+          destruct (Nat.lt_ge_cases i (length (csets s1))) as [Li|Li].
+          - unfold cset_of in *. cbn in *. rewrite nth_upd_same; [reflexivity|exact Li].
+          - rewrite X. unfold cset_of. rewrite nth_overflow by exact Li. reflexivity. }
+        assert (I2 : inv s2).
+        { unfold s2. apply inv_set_cset; [apply P1|]. apply Forall_remove_nat. rewrite Forall_forall.
+          intros x Hx. eapply inv_cs; [apply P1|exact Hx]. }
+        assert (Co2 : forall j, j <> i -> cset_of s2 j = cset_of s1 j).
+        { intros j Nj. unfold s2. destruct (cset_of_set_cset s1 i (remove_nat c (cset_of s1 i)) j) as [(_ & X & _)|X]; [congruence|exact X]. }
+        assert (Hd2 : forall c', In c' (cset_of s1 i) -> negb (c =? c') = false -> k_done (constr_of s1 c') = true).
+        { intros c' Hc' Pc. apply negb_false_iff, Nat.eqb_eq in Pc. subst c'. apply Db. reflexivity. }
+        assert (Ecl : length (csets s2) = length (csets s1)) by (unfold s2; cbn; apply upd_length).
+        destruct (cset_pres s1 s2 (fun y => negb (c =? y)) S1 P1 (conj eq_refl eq_refl) Co2 Ei Hd2 I2 Ecl) as (S2 & P2).
+        split; [split; [exact S2|split; [exact P2|apply (T2_sameVC s s1 s2 (conj eq_refl eq_refl) T1)]]|split; [exact Ci1|split; [|exact Dm]]].
+        intros c' Hc'. rewrite Ei in Hc'. apply In_remove_nat in Hc'. destruct Hc' as (Hc' & N).
+        destruct (Ps1 c' Hc' N) as [X|X]; [left; exact X|right].
+        apply (settled_same s1 s2 c' (conj eq_refl eq_refl) X).
+      * apply wp_ret. split; [split; [exact S1|split; [exact P1|exact T1]]|split; [exact Ci1|split; [|exact Dm]]].
+        intros c' Hc'. destruct (Nat.eq_dec c' c) as [->|N]; [|apply Ps1; assumption].
+        right. destruct Q as [(_ & _ & Qs & _ & Qb)|St]; [|apply St; exact Hc'].
+        apply Qb; [reflexivity|]. unfold cset_of in *. rewrite <- Qs. exact Hc'.
+    + intros _ s2 ((S2 & P2 & T2') & Ci2 & Ps2 & Dm2).
+      eapply wp_conseq; [apply (IH s2 S2 P2 Ci2); [intros c' Hc'; apply Hl; right; exact Hc'|exact Ps2]| |].
+      * intros _ s' ((S' & P' & T') & St & Dm). split; [split; [exact S'|split; [exact P'|eapply T2_trans; eauto]]|split; [exact St|auto]].
+      * intros e [->|Ne]; [left; reflexivity|right; auto].
+Qed.
+
+
+Lemma cc_loop f v l s s1 : SP_ful f -> Step s -> Pre s -> c_cs (cell_of s v) = i ->
+  Permutation l (cset_of s i) -> vars s1 = vars s -> constrs s1 = constrs s -> csets s1 = csets s -> inv s1 ->
+  wp (loop H f v l) s1 (fun _ s' => G s s' /\ Stl s' /\ (Dom s t -> Dom s' t)) (efuel (Dom s t)).
+Proof.
+  intros FF Ss P Ci Pm Ev Ek Ec I1.
+  assert (Ecs : forall j, cset_of s1 j = cset_of s j) by (intros j; unfold cset_of; rewrite Ec; reflexivity).
+  assert (Ei1 : cset_of s1 i = filter (fun _ => true) (cset_of s i)) by (rewrite Ecs; symmetry; apply filter_all).
+  assert (Hd1 : forall c, In c (cset_of s i) -> (fun _ : nat => true) c = false -> k_done (constr_of s c) = true) by (intros c _ X; discriminate).
+  assert (Ecl : length (csets s1) = length (csets s)) by (rewrite Ec; reflexivity).
+  destruct (cset_pres s s1 (fun _ => true) Ss P (conj Ev Ek) (fun j _ => Ecs j) Ei1 Hd1 I1 Ecl) as (S1 & P1).
+  eapply wp_conseq; [apply (loop_spec f v FF l s1 S1 P1)| |].
+  - rewrite (cell_of_vars s1 s v Ev). exact Ci.
+  - intros c Hc. apply (csi_incl s c Ss). eapply Permutation_in; eauto.
+  - intros c Hc. left. rewrite Ecs in Hc. eapply Permutation_in; [apply Permutation_sym; exact Pm|exact Hc].
+  - intros _ s' ((S' & P' & T') & St & Dm). split; [split; [exact S'|split; [exact P'|]]|split; [exact St|]].
+    + apply (T2_sameVC_l s s1 s' (conj Ev Ek) T').
+    + intros D. apply Dm. intros w. rewrite (cell_of_vars s1 s w Ev). apply D.
+  - intros e [->|Ne]; [left; reflexivity|right]. intros D. apply Ne. intros w. rewrite (cell_of_vars s1 s w Ev). apply D.
+Qed.
+
+Lemma cc_step f : SP_ful f -> SP_cc (S f).
+Proof.
+  intros FF v s Ss P Ci. unfold wp. rewrite cc_S_eq. cbv zeta. rewrite Ci.
+  set (p := cset_of s i).
+  assert (Pp : forall r, Permutation (permute (length p) r p) p) by (intros r; apply permute_perm; lia).
+  destruct (2 <=? length p).
+  - destruct (sched s) as [|r rest].
+    + apply (cc_loop f v _ s s FF Ss P Ci (Pp 0)); auto. apply P.
+    + apply (cc_loop f v _ s _ FF Ss P Ci (Pp r)); auto. apply inv_sched. apply P.
+  - apply (cc_loop f v p s s FF Ss P Ci (Permutation_refl p)); auto. apply P.
+Qed.
+
+Definition SPs (f : nat) : Prop :=
+  forall g, g <= f -> SP_cc g /\ SP_bindb g /\ SP_below g /\ SP_ful g.
+
+Lemma SPs_all : forall f, SPs f.
+Proof.
+  induction f as [|f IH]; intros g Lg.
+  - assert (g = 0) by lia. subst g. repeat split.
+    + intros v s _ _ _. unfold wp. rewrite check_constraints_0. left. reflexivity.
+    + intros w a s _ _ _ _ _. unfold wp. rewrite bind_0. left. reflexivity.
+    + intros w m s _ _ _ _ _. unfold wp. rewrite below_0. left. reflexivity.
+    + intros c s _ _ _. unfold wp. rewrite fulfill_0. left. reflexivity.
+  - destruct (Nat.eq_dec g (S f)) as [->|N]; [|apply IH; lia].
+    destruct (IH f (le_n f)) as (CC & BB & BL & FF).
+    split; [apply cc_step; exact FF|split; [apply bindb_step; exact CC|split; [apply below_step; assumption|]]].
+    intros c s Ss P Hc. destruct (k_elim (constr_of s0 c)) eqn:E0.
+    + apply ful_elim; auto. intros g Lg'. apply (IH g Lg').
+    + apply ful_sub; auto.
 Qed.
 
 End D.
